@@ -27,7 +27,8 @@ LEVEL = ('decides the discipline around explanations, not their logic: propagato
          '(L19); INCREMENTAL-RESET of un-trailed accumulators (L20); reasons assembled from parts are '
          'their union (L21). eager reasons select by position only, never by a test on the current '
          'domains (L22); buffered lazy explanations are rebuilt on every call (L23 MUST-PASS); tasks '
-         'leave a resource profile only where a mandatory part is undone (L24 WHO-MAY-SHRINK). Beyond '
+         'leave a resource profile only where a mandatory part is undone (L24 WHO-MAY-SHRINK). The '
+         'per-profile explanation cache is initialised from the profile only (L25 CACHE-KEY). Beyond '
          'these necessary conditions: Logical sufficiency and truth of the stated facts — the heart of'
          ' the property — are NOT decided')
 TECHNIQUE = "static analysis: who-may-call / taint with control dependence / dominance over rustc MIR"
